@@ -152,3 +152,11 @@ Lemma first_bad_none A B all : forall phi, first_bad A B phi all = None -> foral
 Proof.
   induction phi as [|p r IH]; cbn; [reflexivity|]. destruct (equiv_pair A B all p); [|discriminate]. exact IH.
 Qed.
+
+Lemma all_bad_nil A B phi : all_bad A B phi = [] -> tl2_equiv A B phi = true.
+Proof.
+  unfold all_bad, tl2_equiv. intros H. apply forallb_forall. intros p Hp.
+  destruct (equiv_pair A B phi p) eqn:E; [reflexivity|]. exfalso.
+  assert (Hin : In p (filter (fun q => negb (equiv_pair A B phi q)) phi)) by (apply filter_In; rewrite E; auto).
+  rewrite H in Hin. destruct Hin.
+Qed.
